@@ -9,8 +9,10 @@ if ! git apply --check "$pf" 2>/dev/null; then pf="$d/patch.rebased.diff"; fi   
 if ! git apply --check "$pf" 2>/dev/null; then echo "SEED $(basename $d): patch does not apply to the current tree"; exit 3; fi
 git apply "$pf"
 cd /verif
+rm -rf .work/evidence.keep; cp -r evidence .work/evidence.keep   # evidence of the unchanged tree must not be overwritten by a seeded run
 for p in $prop "$@"; do
   out=$(./vx check $p 2>&1); code=$?
   echo "SEED $(basename $d) property=$p exit=$code $(echo "$out" | grep -E '^(VIOLATION|UNDECIDED)' | head -3 | cut -c1-260 | tr '\n' ' ')"
 done
 git -C /repo checkout -- .
+rm -rf evidence; mv .work/evidence.keep evidence
